@@ -2,7 +2,10 @@ import DoraModel.Match.Model
 open Dora.Match
 
 /-! Line-protocol driver for C11. Request grammar: see harness/crates/c11/src/main.rs.
-    Response: `<algorithm verdict as the real front end prints it> ## <brute-force truth> ## <run-time arms>` -/
+    Response: `<algorithm verdict as the real front end prints it> ## <brute-force truth> ## <run-time arms>`.
+    `(m (D*) T (A*))`: run-time arms for every value of a finite scrutinee type.
+    `(lm L (A*) (V*))`: literal scrutinee (L = Int64 | Int32 | UInt8 | Char | Str; the model has one integer type);
+    run-time arms = `firstMatch` for the selector values `V*` listed in the request, per guard mask. -/
 
 inductive SExp where
   | atom (s : String)
@@ -80,6 +83,7 @@ def findIdx (p : α → Bool) : List α → Nat → Option Nat
 def resolveTy (ds : List DeclInfo) (t : String) : Option Ty :=
   match t with
   | "Bool" => some .bool | "Int" => some .int | "Char" => some .char | "Str" => some .str
+  | "Int64" => some .int | "Int32" => some .int | "UInt8" => some .int
   | n => (findIdx (fun (d : DeclInfo) => d.name == n) ds 0).map Ty.adt
 
 def mkEnv (ds : List DeclInfo) : Option (List Decl) :=
@@ -104,6 +108,10 @@ partial def parsePat (ds : List DeclInfo) (tn : String) : SExp → Option SPat
   | .atom ".." => some .rest
   | .list [.atom "v", .atom _] => some .var
   | .list [.atom "i", .atom n] => n.toInt?.map (fun i => SPat.lit (.int i))
+  -- a literal with a spelling (hex / binary / underscores / no suffix): the type checker stores the value
+  | .list [.atom "i", .atom n, .atom _] => n.toInt?.map (fun i => SPat.lit (.int i))
+  -- an identifier resolved to a `const` with this value
+  | .list [.atom "k", .atom n] => n.toInt?.map (fun i => SPat.const (.int i))
   | .list [.atom "c", .atom n] => n.toNat?.map (fun c => SPat.lit (.char c))
   | .list [.atom "s"] => some (.lit (.str []))
   | .list [.atom "s", .atom w] => some (.lit (.str (w.toList.map Char.toNat)))
@@ -251,10 +259,10 @@ def truthPart (arms : List Arm) (vals : List Val) : String :=
   (match miss with | none => "exhaustive" | some k => "missing@" ++ toString k) ++
     " unreach[" ++ ";".intercalate (unreach.map toString) ++ "]"
 
-def rtPart (arms : List Arm) (vals : List Val) : String :=
+def rtPart (arms : List Arm) (vals : List Val) (maxVals : Nat := 64) : String :=
   let guardedIdx := (List.range arms.length).filter (fun i => (arms[i]!).guarded)
   let g := guardedIdx.length
-  if g > 3 || vals.length > 64 then "-" else
+  if g > 3 || vals.length > maxVals then "-" else
   "|".intercalate ((List.range (2 ^ g)).map (fun c =>
     let guards : Nat → Bool := fun i =>
       match findIdx (· == i) guardedIdx 0 with
@@ -263,6 +271,28 @@ def rtPart (arms : List Arm) (vals : List Val) : String :=
     " ".intercalate (vals.map (fun v => match firstMatch arms guards v with | some i => toString i | none => "x"))))
 
 def fuelAmount : Nat := 100000
+
+/-- selector value of an `lm` request: integer / code point / word (`-` = the empty string) -/
+def parseSelector (ty : Ty) : SExp → Option Val
+  | .atom a =>
+    match ty with
+    | .int => a.toInt?.map (fun i => Val.lit (.int i))
+    | .char => a.toNat?.map (fun c => Val.lit (.char c))
+    | .str => some (Val.lit (.str (if a == "-" then [] else a.toList.map Char.toNat)))
+    | _ => none
+  | _ => none
+
+def algoPart (ds : List DeclInfo) (env : Env) (arms : List Arm) : String :=
+  match checkMatch env fuelAmount arms with
+  | .error (.panic site) => "!panic " ++ (site.splitOn " ").head!
+  | .error .fuel => "!fuel"
+  | .ok res =>
+    let verdict :=
+      if res.missing.isEmpty then "exhaustive"
+      else "missing[" ++ ", ".intercalate (res.missing.map (fun row =>
+        match row with | p :: _ => displayPattern ds p | [] => "!empty")) ++ "]"
+    let us := res.useless.foldl (fun acc s => insertSorted s acc) []
+    verdict ++ " useless[" ++ ";".intercalate (us.map showSpan) ++ "]"
 
 def respond (line : String) : String :=
   match parseSExp line.trimAscii.toString with
@@ -273,17 +303,7 @@ def respond (line : String) : String :=
       match mkEnv ds, resolveTy ds tn, armsx.mapM (parseArm ds tn) with
       | some decls, some ty, some arms =>
         let env := envOf decls
-        let algo :=
-          match checkMatch env fuelAmount arms with
-          | .error (.panic site) => "!panic " ++ (site.splitOn " ").head!
-          | .error .fuel => "!fuel"
-          | .ok res =>
-            let verdict :=
-              if res.missing.isEmpty then "exhaustive"
-              else "missing[" ++ ", ".intercalate (res.missing.map (fun row =>
-                match row with | p :: _ => displayPattern ds p | [] => "!empty")) ++ "]"
-            let us := res.useless.foldl (fun acc s => insertSorted s acc) []
-            verdict ++ " useless[" ++ ";".intercalate (us.map showSpan) ++ "]"
+        let algo := algoPart ds env arms
         let ls := arms.flatMap (fun a => collectLits a.pat)
         let n := countVals decls ls 8 ty
         if n > 4096 then algo ++ " ## - ## -" else
@@ -291,6 +311,17 @@ def respond (line : String) : String :=
         algo ++ " ## " ++ truthPart arms vals ++ " ## " ++
           (if tyFinite decls 8 ty then rtPart arms vals else "-")
       | _, _, _ => "!badreq"
+  | some (.list [.atom "lm", .atom tn, .list armsx, .list valsx]) =>
+    match resolveTy [] tn, armsx.mapM (parseArm [] tn) with
+    | some ty, some arms =>
+      match valsx.mapM (parseSelector ty) with
+      | none => "!badreq"
+      | some sel =>
+        let algo := algoPart [] (envOf []) arms
+        let ls := arms.flatMap (fun a => collectLits a.pat)
+        -- truth: brute force over the literals that occur and one value that does not
+        algo ++ " ## " ++ truthPart arms (valsOf [] ls ty) ++ " ## " ++ rtPart arms sel 400
+    | _, _ => "!badreq"
   | _ => "!badreq"
 
 partial def loop (h : IO.FS.Stream) (out : IO.FS.Stream) : IO Unit := do
